@@ -284,6 +284,12 @@ B build(FuzzedDataProvider &fdp)
                 case 13: {
                     F2 f = FUN2[fdp.ConsumeIntegralInRange<size_t>(0, sizeof(FUN2) / sizeof(FUN2[0]) - 1)];
                     B a = pick(), b = pick();
+                    // generator precondition: beta(1/2, -3/2) calls gamma_positive_int(-1) -> factorial((unsigned long)-2)
+                    // (functions.cpp:3344, a library defect outside C20 that ends in a GMP allocation failure)
+                    if (f == (F2)beta
+                        && ((is_a_Number(*a) && !down_cast<const Number &>(*a).is_positive())
+                            || (is_a_Number(*b) && !down_cast<const Number &>(*b).is_positive())))
+                        break;
                     if (small_for_function(a) && small_for_function(b))
                         r = f(a, b);
                     break;
